@@ -672,6 +672,19 @@ func c02Reuse(w *core.W, b []byte, fresh *dns.Msg, freshErr error, wit map[strin
 	if d := bridge.Diff(fresh, used); d != "" {
 		w.Violation("C02/reused-msg/stale-content", "a Msg reused for this input differs from a fresh one (fresh vs reused) at "+d, wit)
 	}
+	// ... and a Msg whose previous decode failed half-way (the packet before this one was cut inside its
+	// last record: header, question and the first sections were already filled in)
+	half := new(dns.Msg)
+	half.Unpack(append([]byte(nil), c02DirtyWire[:len(c02DirtyWire)-7]...))
+	var herr error
+	if w.Guard("Msg.Unpack(reused after a failed decode)", wit, func() { herr = half.Unpack(append([]byte(nil), b...)) }) {
+		return
+	}
+	if herr != nil {
+		w.Violation("C02/reused-msg/verdict-differs", fmt.Sprintf("Unpack into a fresh Msg succeeds; into a Msg whose previous decode had failed: %v", herr), wit)
+	} else if d := bridge.Diff(fresh, half); d != "" {
+		w.Violation("C02/reused-msg/stale-content-after-failed-decode", "a Msg reused after a failed decode differs from a fresh one (fresh vs reused) at "+d, wit)
+	}
 }
 
 func u16at(b []byte, off int) int {
